@@ -223,6 +223,15 @@ PullRingTail(u) ==
          ord, 7, "resolved", "pullringtail") :
      sa \in {<<1>>}, sb \in StepSeqs, ord \in Perms3}
 
+(* the same with an UNBROKEN ring A <-> W: whether the descent starts at A or at the tail reader B (and so *)
+(* closes at a time component or at the pull-based one), the cycle is reported                             *)
+PullRingTail0(u) ==
+  {MkCfg(<<TimeC(sa, 0, FALSE, <<Lk(2, ca)>>), PullC(<<Lk(1, cw)>>),
+           TimeC(sb, ob, FALSE, <<Lk(2, <<>>)>>)>>,
+         ord, 6, "unbroken", "pullringtail0") :
+     sa \in Steps1, sb \in Steps1, ob \in {0, 1}, ca \in {<<>>, <<Pass>>}, cw \in {<<>>, <<Pass>>},
+     ord \in {<<1, 2, 3>>, <<3, 2, 1>>, <<2, 3, 1>>, <<3, 1, 2>>}}
+
 (* WeightedSum between four producers (value / weight pairs, the second    *)
 (* value possibly in km) and one or two readers that pull at the same times *)
 WSum(u) ==
@@ -381,6 +390,7 @@ CfgSpace(f) ==
     [] f = "wsum"       -> WSum(0)
     [] f = "wsumback"   -> WSumBack(0)
     [] f = "pulltwice"  -> PullTwice(0)
+    [] f = "pullringtail0" -> PullRingTail0(0)
     [] f = "wsumstatic" -> WSumStatic(0)
     [] f = "diamondpd"  -> DiamondPD(0)
     [] f = "fanoutshared" -> FanOutShared(0)
@@ -397,6 +407,6 @@ CfgSpace(f) ==
 
 AllFamilies == {"pair", "pairL", "pairXL", "pair3", "chain3t", "chain3p", "fanin2", "fanin1",
                 "fanout", "pullfanout", "diamondt", "diamondp", "pullchain2", "ring2", "ring3",
-                "ring4", "pullring", "pullringtail", "ringbreak", "wsum", "pulltwice", "diamondpd", "wsumstatic", "ring2tail", "fanoutshared", "repeatinteg", "sinkfan", "lateidle", "ringfanin", "fanout3shared", "chain3d", "wsumback", "finisher", "trigger", "staticin", "ringavg", "fanoutsum", "findep"}
+                "ring4", "pullring", "pullringtail", "pullringtail0", "ringbreak", "wsum", "pulltwice", "diamondpd", "wsumstatic", "ring2tail", "fanoutshared", "repeatinteg", "sinkfan", "lateidle", "ringfanin", "fanout3shared", "chain3d", "wsumback", "finisher", "trigger", "staticin", "ringavg", "fanoutsum", "findep"}
 
 =============================================================================
